@@ -101,6 +101,16 @@ CHECKS = {
             "each of 8 deterministic configuration families is solved twice under different RNG states and must give bit-identical evaluation sequences and results; x0/bounds/user_params are passed read-only and compared. NOT proved: no-mutation (Python aliasing).",
             "Trusted: Lean kernel; standard axioms; determinism of CPython/NumPy/LAPACK within one process; call-site identification from the Python stack.",
             "6/C19"),
+    "C12": ("Lean 4 theorems (box clause for every input and any rounding, gnew = g + H d invariant, first-step decrease) + Lean Float port of trsbox/alt_trust_step compared with the Python under three summation variants",
+            "PARTIAL. Proved: the returned step is d_within_bounds of the unclipped step on both return paths, so xopt+d lies in [sl,su] for ANY rounding; gnew = g + H d is preserved by the CG and alt-step updates; the first CG step decreases the model. "
+            "Stated, not proved: ||d|| <= delta, monotone decrease over all iterations, Cauchy decrease of the returned step - decided by the search on the property's grid (15000 quick / 150000 thorough inputs) and watched by the port correspondence (0 branch-tie skips).",
+            "Trusted: Lean kernel; standard axioms; conditioning-aware comparator (tolerance 1e-7 delta); reductions in Lean are sequential sums (NumPy uses BLAS).",
+            "6/C12"),
+    "C13": ("Lean 4 theorems (exact-arithmetic box/ball/never-worse for trsbox_linear and trsbox_geometry over an ordered field with a sqrt spec; ||d|| <= Delta for the convex solvers via Dykstra.ball_last; NaN-aware zero-step rule) + kernel and decision-logic correspondence",
+            "PARTIAL. Proved: the geometry step lies in the (widened) box and the ball and is never worse than not moving (exact arithmetic, same definition the Float driver runs); every convex solver returns a last projection onto the trust-region ball (||d|| <= Delta); "
+            "trust_region_step replaces a step with negative predicted reduction by zero for every NaN pattern. Stated, not proved: global optimality of the geometry step (searched against a clipped-ray bisection oracle).",
+            "Trusted: Lean kernel; standard axioms; exact arithmetic for box/ball (float gap watched by the comparator, max 2.8e-12 Delta); Dykstra projectors as oracles.",
+            "6/C13"),
 }
 
 PENDING_REASON = "check not built yet in this round (planned: see DESIGN.md section 6); not claimed until its theorem, correspondence and search exist"
